@@ -699,6 +699,9 @@ class FuncGraph:
         if self._unroll_literal_comprehension(s, env):
             return None
         v = self.expr(s.value, env)
+        if self._loops and len(s.targets) == 1 and isinstance(s.targets[0], ast.Name) and isinstance(s.value, ast.BinOp) and \
+                any(isinstance(n, ast.Name) and n.id == s.targets[0].id for n in ast.walk(s.value)):
+            self._note_blockwise([v], s, 'result accumulated over blocks of an axis')          # total = total + f(x[..., a:b])
         for t in s.targets:
             if isinstance(s.value, (ast.GeneratorExp, ast.ListComp)) and isinstance(t, (ast.Tuple, ast.List)):
                 self._assign_display(t, v, env, s)          # a, b = (f(x) for x in <display>), unrolled by _comp
@@ -720,6 +723,8 @@ class FuncGraph:
             new = self.mk('iop', (opn, old, rhs), s)
             self.event('inplace', new, s, data=dict(target=old, how='augassign', name=t.id))
             self.bind(t.id, new, env, s)
+            self._write_through_view(old, new, env, s, skip=t.id)
+            self._note_blockwise([rhs], s, 'result accumulated over blocks of an axis')
         elif isinstance(t, ast.Subscript) and isinstance(t.value, ast.Name) and t.value.id in self.record_names() and isinstance(t.slice, ast.Constant):
             old = env.get(('$rec', t.value.id, t.slice.value), UNDEF)
             new = self.mk('iop', (opn, old, rhs), s)
@@ -733,6 +738,7 @@ class FuncGraph:
             st = self.mk('store', (base_old, idx, new), s)
             self.event('inplace', st, s, data=dict(target=base_old, how='augassign-subscript'))
             self.rebind_target_base(t.value, st, env, s)
+            self._note_blockwise([idx], s, 'array assembled from blocks of an axis')
         elif isinstance(t, ast.Attribute):
             base = self.expr(t.value, env)
             cur = self.load_attr(t, base, env)
@@ -742,6 +748,78 @@ class FuncGraph:
             if isinstance(t.value, ast.Name):
                 env[('$attr', t.value.id, t.attr)] = new
         return None
+
+    UFUNC_REDUCE = {'numpy.add.reduce': 'numpy.sum', 'numpy.multiply.reduce': 'numpy.prod', 'numpy.maximum.reduce': 'numpy.amax', 'numpy.minimum.reduce': 'numpy.amin',
+                    'numpy.logical_and.reduce': 'numpy.all', 'numpy.logical_or.reduce': 'numpy.any'}
+
+    def _note_blockwise(self, terms, node, what):
+        """a value accumulated / assembled over BLOCKS of an axis (slices whose bounds are computed from the index of an enclosing loop): the term graph carries one
+        iteration, not the sum / the assembled array - recorded as a construct that is not followed, so that a report about this function is not mistaken for a decided deviation"""
+        if not self._loops:
+            return
+        for t in terms:
+            if not isinstance(t, T):
+                continue
+            for x in walk_terms(t, into_mu=False):
+                if x.op == 'slice' and any(isinstance(z, T) and any(y.op == 'elem' and isinstance(getattr(y, 'extra', None), Loop) for y in walk_terms(z, into_mu=False)) for z in x.args):
+                    self.__dict__.setdefault('not_followed', []).append((what, getattr(node, 'lineno', 0)))
+                    return
+
+    def _write_through_view(self, old, new, env, node, skip=None):
+        """blk = y[..., a:b, :]; blk /= n   changes y: an in-place operation on a name that holds a BASIC-index view (slices, integers, `...`, None) of an array another name
+        holds writes into that array - the other name denotes  y with y[..., a:b, :] replaced  afterwards (the same store the statement  y[..., a:b, :] /= n  gives)"""
+        v = old
+        while isinstance(v, T) and v.op == 'refine':
+            v = v.args[0]
+        if isinstance(v, T) and v.op == 'elem' and v.args and isinstance(v.args[0], T) and v.args[0].op == 'call' and v.args[0].args[0].op == 'ref' \
+                and isinstance(v.args[0].args[0].args[0], Lib) and v.args[0].args[0].args[0].dotted in ('numpy.array_split', 'numpy.split') and v.args[0].args[1] \
+                and v.args[0].args[1][0].op != 'star':
+            # for blk in np.array_split(X, n, axis=a): blk /= ...: the pieces are views that together make up X - every piece is written once
+            split = v.args[0]
+            base = split.args[1][0]
+            kw = dict((k, x) for k, x in split.args[2] if k is not None)
+            ax = kw.get('axis', split.args[1][2] if len(split.args[1]) > 2 else const(0, node, self.fn))
+            def holds(val):
+                # the name still denotes the array that was split (possibly as the loop-carried value that started with it / was written by earlier pieces)
+                for _ in range(6):
+                    if val is base:
+                        return True
+                    if isinstance(val, T) and val.op in ('mu', 'store'):
+                        val = val.args[0]
+                    else:
+                        return False
+                return False
+            names = [k for k, val in env.items() if isinstance(k, str) and k != skip and holds(val)]
+            if names and ax.op == 'const' and isinstance(ax.args[0], int) and not isinstance(ax.args[0], bool):
+                st = self.mk('store', (env[names[0]], self.mk('unknown', ('piece of a split',), node), new), node)
+                st.extra = ('covers', ax.args[0])
+                self.event('inplace', st, node, data=dict(target=base, how='augassign-view'))
+                for k in names:
+                    self.bind(k, st, env, node)
+            return
+        if not (isinstance(v, T) and v.op == 'sub'):
+            return
+        base, idx = v.args
+        items = list(idx.args[0]) if idx.op == 'tuple' else [idx]
+
+        def basic(x):
+            if x.op == 'slice':
+                return True
+            if x.op == 'const':
+                return x.args[0] is None or x.args[0] is Ellipsis or (isinstance(x.args[0], int) and not isinstance(x.args[0], bool))
+            if x.op == 'elem' and x.args and isinstance(x.args[0], T):
+                it = x.args[0]
+                return it.op == 'call' and it.args[0].op == 'ref' and it.args[0].args[0] == ('builtin', 'range')
+            return False
+        if not items or not all(basic(x) for x in items) or not any(x.op == 'slice' for x in items):
+            return
+        names = [k for k, val in env.items() if isinstance(k, str) and k != skip and val is base]
+        if not names:
+            return
+        st = self.mk('store', (base, idx, new), node)
+        self.event('inplace', st, node, data=dict(target=base, how='augassign-view'))
+        for k in names:
+            self.bind(k, st, env, node)
 
     def st_If(self, s, env):
         c = self.expr(s.test, env)
@@ -897,6 +975,20 @@ class FuncGraph:
         v = V()
         for st in stmts:
             v.visit(st)
+        # blk = y[..., a:b]; blk /= n  (or out=blk): the array the view was cut from is changed in the block too (see _write_through_view)
+        view_of = {}
+        for st in stmts:
+            for n in ast.walk(st):
+                if isinstance(n, ast.Assign) and len(n.targets) == 1 and isinstance(n.targets[0], ast.Name) and isinstance(n.value, ast.Subscript) and isinstance(n.value.value, ast.Name):
+                    view_of[n.targets[0].id] = n.value.value.id
+        for st in stmts:
+            for n in ast.walk(st):
+                if isinstance(n, ast.AugAssign) and isinstance(n.target, ast.Name) and n.target.id in view_of:
+                    names.add(view_of[n.target.id])
+                if isinstance(n, ast.Call):
+                    for k in n.keywords:
+                        if k.arg == 'out' and isinstance(k.value, ast.Name) and k.value.id in view_of:
+                            names.add(view_of[k.value.id])
         return names | attrs
 
     def _loop(self, s, env, kind, iter_term=None):
@@ -918,6 +1010,14 @@ class FuncGraph:
         elif kind == 'for' and isinstance(s.iter, ast.Name) and isinstance(s.target, ast.Name):
             views[s.target.id] = s.iter.id               # for row in X: row[...] = v
         carried = self.assigned_names(s.body)
+        if kind == 'for' and isinstance(s.target, ast.Name) and isinstance(s.iter, ast.Call) and isinstance(s.iter.func, ast.Attribute) and s.iter.func.attr in ('array_split', 'split') \
+                and s.iter.args and isinstance(s.iter.args[0], ast.Name):
+            # for blk in np.array_split(X, n, axis=a): blk /= ...   the blocks are views of X: X is changed in the loop
+            tgt = s.target.id
+            if any((isinstance(n, ast.AugAssign) and isinstance(n.target, ast.Name) and n.target.id == tgt) or
+                   (isinstance(n, ast.Call) and any(k.arg == 'out' and isinstance(k.value, ast.Name) and k.value.id == tgt for k in n.keywords))
+                   for b in s.body for n in ast.walk(b)):
+                carried = carried | {s.iter.args[0].id}
         if kind == 'for':
             carried |= self.assigned_names([ast.Assign(targets=[s.target], value=ast.Constant(0))])
         for k in carried:
@@ -1563,6 +1663,7 @@ class FuncGraph:
             st = self.mk('store', (base_old, idx, value), node)
             self.event('store', st, node, data=dict(target=base_old, how='subscript-store'))
             self.rebind_target_base(target.value, st, env, node)
+            self._note_blockwise([idx], node, 'array assembled from blocks of an axis')
         elif isinstance(target, ast.Attribute) and target.attr in ('real', 'imag') and isinstance(target.value, ast.Name) and \
                 not (self.self_name and target.value.id == self.self_name):
             # x.real = v / x.imag = v on an array writes into x: it is x.real[...] = v
@@ -1927,7 +2028,11 @@ class FuncGraph:
         if len(out_kw) == 1 and f.op == 'ref' and isinstance(f.args[0], Lib) and not any(a.op == 'star' for a in args):
             oname = next((k.value.id for k in e.keywords if k.arg == 'out' and isinstance(k.value, ast.Name)), None)
             buf = out_kw[0][1]
-            if oname is not None and env.get(oname) is buf and self._own_buffer(buf) and not any(a is buf for a in args) and not any(v is buf for k, v in kws if k != 'out'):
+            elementwise_on_itself = f.args[0].dotted in ('numpy.maximum', 'numpy.minimum', 'numpy.clip', 'numpy.sqrt', 'numpy.abs', 'numpy.exp', 'numpy.log', 'numpy.square', 'numpy.cos',
+                                                         'numpy.sin', 'numpy.negative', 'numpy.reciprocal', 'numpy.conj', 'numpy.conjugate') \
+                and args and args[0] is buf and not any(a is buf for a in args[1:]) and self._fresh_value(buf)
+            if oname is not None and env.get(oname) is buf and (self._own_buffer(buf) or elementwise_on_itself) and (elementwise_on_itself or not any(a is buf for a in args)) \
+                    and not any(v is buf for k, v in kws if k != 'out'):
                 with_out = self.mk('call', (f, tuple(args), tuple(kws)), e)
                 self.event('outcall', with_out, e, data=dict(name=oname, buffer=buf))
                 kws2 = [kv for kv in kws if kv[0] != 'out']
@@ -2293,6 +2398,28 @@ class FuncGraph:
             return self._own_buffer(t.args[0], depth + 1)
         return False
 
+    FRESH_RESULTS = ('numpy.linalg.norm', 'numpy.sqrt', 'numpy.abs', 'numpy.absolute', 'numpy.exp', 'numpy.log', 'numpy.sum', 'numpy.mean', 'numpy.einsum', 'numpy.matmul', 'numpy.maximum',
+                     'numpy.minimum', 'numpy.square', 'numpy.angle', 'numpy.cos', 'numpy.add.reduce', 'numpy.amax', 'numpy.max', 'numpy.prod', 'numpy.array', 'numpy.copy',
+                     'numpy.conj', 'numpy.conjugate', 'numpy.where', 'numpy.clip', 'numpy.cumsum', 'numpy.cumprod', 'numpy.dot', 'numpy.tensordot', 'numpy.trace')
+
+    def _fresh_value(self, t, depth=0):
+        """an array that was computed, not handed in or cut out of another one: the result of arithmetic or of a library function that allocates its result (np.array only as a copy)"""
+        if not isinstance(t, T) or depth > 3:
+            return False
+        if self._own_buffer(t):
+            return True
+        if t.op == 'binop':
+            return True
+        if t.op == 'iop':
+            return self._fresh_value(t.args[1], depth + 1)          # x -= y on a fresh x
+        if t.op == 'sub' and t.args[1].op == 'tuple' and all(x.op == 'slice' or (x.op == 'const' and (x.args[0] is None or x.args[0] is Ellipsis)) for x in t.args[1].args[0]):
+            return self._fresh_value(t.args[0], depth + 1)          # a view of a fresh array (x[..., None]) is the function's own memory as well
+        if t.op == 'call' and t.args[0].op == 'ref' and isinstance(t.args[0].args[0], Lib) and t.args[0].args[0].dotted in self.FRESH_RESULTS:
+            if t.args[0].args[0].dotted == 'numpy.array':
+                return any(k == 'copy' and v.op == 'const' and v.args[0] is True for k, v in t.args[2])
+            return not any(k == 'out' for k, _ in t.args[2])
+        return False
+
     def _splice_stars(self, args):
         out = []
         for a in args:
@@ -2548,6 +2675,18 @@ class FuncGraph:
         ua = self._unit_axis_forms(f, lib, args, kws, e)
         if ua is not None:
             return ua
+        if lib in self.UFUNC_REDUCE and plain and not any(k in ('out', 'where', 'initial') for k, _ in kws):
+            # np.add.reduce(x, axis, dtype, out, keepdims) is np.sum(x, axis=..., keepdims=...) (the ufunc's default axis is 0, np.sum's is None)
+            kw2 = [kv for kv in kws if kv[0] in ('axis', 'keepdims', 'dtype')]
+            a2 = list(args[:1])
+            if len(args) > 1:
+                kw2.append(('axis', args[1]))
+            if len(args) > 2:
+                kw2.append(('dtype', args[2]))
+            if not any(k == 'axis' for k, _ in kw2):
+                kw2.append(('axis', const(0, e, self.fn)))
+            if len(args) <= 3:
+                return self.ex_call_terms(self.mk('ref', (Lib(self.UFUNC_REDUCE[lib]),), e), a2, kw2, e, env)
         # NumPy 2 / array-API names of operations that have an older name
         if lib in self.MODERN_ALIASES and plain:
             return self.ex_call_terms(self.mk('ref', (Lib(self.MODERN_ALIASES[lib]),), e), list(args), list(kws), e, env)
@@ -2582,6 +2721,50 @@ class FuncGraph:
             j = joined(args[0])
             if j is not None:
                 return j
+        if lib == 'numpy.einsum' and plain and not kws and len(args) >= 3 and args[0].op == 'const' and isinstance(args[0].args[0], str) and '->' in args[0].args[0] \
+                and not self.__dict__.get('_in_einsum_split'):
+            # np.einsum('...nd,...nD->...dD', w[..., :, None] * y, conj(y)): an operand that is a product with a factor written with explicit unit axes of the operand's own
+            # width is two operands of the contraction ('...n,...nd,...nD->...dD', w, y, conj(y))
+            lhs, rhs = args[0].args[0].replace(' ', '').split('->')
+            specs = lhs.split(',')
+            if len(specs) == len(args) - 1 and all(sp.startswith('...') or '.' not in sp for sp in specs):
+                def unit_pattern(t_):
+                    if t_.op != 'sub' or t_.args[1].op != 'tuple':
+                        return None
+                    its = t_.args[1].args[0]
+                    if len(its) < 2 or not (its[0].op == 'const' and its[0].args[0] is Ellipsis):
+                        return None
+                    kept = []
+                    for x_ in its[1:]:
+                        if x_.op == 'const' and x_.args[0] is None:
+                            kept.append(False)
+                        elif x_.op == 'slice' and all(y_.op == 'const' and y_.args[0] is None for y_ in x_.args):
+                            kept.append(True)
+                        else:
+                            return None
+                    return (t_.args[0], kept) if not all(kept) and any(kept) else None
+                new_specs, new_ops, changed = [], [], False
+                for sp, op_ in zip(specs, args[1:]):
+                    letters = sp.replace('...', '')
+                    done = False
+                    if sp.startswith('...') and op_.op == 'binop' and op_.args[0] == 'Mult':
+                        for w_, y_ in ((op_.args[1], op_.args[2]), (op_.args[2], op_.args[1])):
+                            up = unit_pattern(w_)
+                            # (one weight per ROW / observation, w[..., :, None]: the idiom of a saliency-weighted scatter; a weight along the last axis stays a factor)
+                            if up is not None and len(up[1]) == len(letters) and not up[1][-1] and unit_pattern(y_) is None:
+                                new_specs += ['...' + ''.join(l for l, k in zip(letters, up[1]) if k), sp]
+                                new_ops += [up[0], y_]
+                                done = changed = True
+                                break
+                    if not done:
+                        new_specs.append(sp)
+                        new_ops.append(op_)
+                if changed:
+                    self._in_einsum_split = True
+                    try:
+                        return self.ex_call_terms(self.mk('ref', (Lib('numpy.einsum'),), e), [const(','.join(new_specs) + '->' + rhs, e, self.fn)] + new_ops, [], e, env)
+                    finally:
+                        self._in_einsum_split = False
         if lib == 'numpy.einsum' and plain and not kws and len(args) == 2 and args[0].op == 'const' and isinstance(args[0].args[0], str) and '->' in args[0].args[0]:
             # einsum('ftd->fdt', x) only reorders axes: np.transpose(x, (0, 2, 1)); '...ab->...ba' is swapaxes(x, -1, -2)
             lhs, rhs = args[0].args[0].replace(' ', '').split('->')
@@ -2660,8 +2843,51 @@ class FuncGraph:
                 self.event('inplace', new, e, data=dict(target=args[0], how='augassign', name=name))
                 if name is not None:
                     self.bind(name, new, env, e)
+                    self._write_through_view(args[0], new, env, e, skip=name)
                 return new
             return None
+        if lib == 'numpy.sum' and plain and args and args[0].op == 'call' and args[0].args[0].op == 'ref' and isinstance(args[0].args[0].args[0], Lib) \
+                and args[0].args[0].args[0].dotted == 'numpy.diagonal' and not any(a.op == 'star' for a in args[0].args[1]) and all(k is not None for k, _ in args[0].args[2]):
+            # np.sum(np.diagonal(x, axis1=a, axis2=b), axis=-1) is np.trace(x, axis1=a, axis2=b): the diagonal is appended as the LAST axis
+            kw_ = dict(kws)
+            ax_ = kw_.get('axis', args[1] if len(args) > 1 else None)
+            if ax_ is not None and ax_.op == 'const' and ax_.args[0] == -1 and not isinstance(ax_.args[0], bool) and not (set(kw_) - {'axis'}) and len(args) <= 2:
+                d_ = args[0]
+                dk = dict(d_.args[2])
+                pos_ = list(d_.args[1])
+                off = dk.get('offset', pos_[1] if len(pos_) > 1 else None)
+                a1 = dk.get('axis1', pos_[2] if len(pos_) > 2 else None)
+                a2 = dk.get('axis2', pos_[3] if len(pos_) > 3 else None)
+                if (off is None or (off.op == 'const' and off.args[0] == 0)) and a1 is not None and a2 is not None:
+                    self.events[:] = [ev for ev in self.events if ev.term is not d_]
+                    return self.ex_call_terms(self.mk('ref', (Lib('numpy.trace'),), e), [pos_[0]], [('axis1', a1), ('axis2', a2)], e, env)
+        if lib == 'numpy.sqrt' and plain and len(args) == 1 and not kws:
+            # np.sqrt(np.einsum('...d,...d->...', x, x.conj()).real) is np.linalg.norm(x, axis=-1) (also with [..., None] in between: keepdims)
+            inner, idx_ = args[0], None
+            if inner.op == 'sub' and inner.args[1].op == 'tuple' and all(x.op == 'slice' or (x.op == 'const' and (x.args[0] is None or x.args[0] is Ellipsis)) for x in inner.args[1].args[0]):
+                inner, idx_ = inner.args[0], inner.args[1]
+            if inner.op == 'attr' and inner.args[1] == 'real':
+                inner = inner.args[0]
+            elif inner.op == 'call' and inner.args[0].op == 'ref' and isinstance(inner.args[0].args[0], Lib) and inner.args[0].args[0].dotted in ('numpy.real', 'numpy.abs') \
+                    and len(inner.args[1]) == 1 and not inner.args[2]:
+                inner = inner.args[1][0]
+            if inner.op == 'call' and inner.args[0].op == 'ref' and isinstance(inner.args[0].args[0], Lib) and inner.args[0].args[0].dotted == 'numpy.einsum' and len(inner.args[1]) == 3 \
+                    and not inner.args[2] and inner.args[1][0].op == 'const' and isinstance(inner.args[1][0].args[0], str):
+                import re as _re
+                m_ = _re.fullmatch(r'\.\.\.([a-zA-Z]),\.\.\.([a-zA-Z])->\.\.\.', inner.args[1][0].args[0].replace(' ', ''))
+                if m_ and m_.group(1) == m_.group(2):
+                    def unconj(x):
+                        if x.op == 'call' and x.args[0].op == 'ref' and isinstance(x.args[0].args[0], Lib) and x.args[0].args[0].dotted in ('numpy.conj', 'numpy.conjugate') \
+                                and len(x.args[1]) == 1 and not x.args[2]:
+                            return x.args[1][0], True
+                        if x.op == 'call' and x.args[0].op == 'attr' and x.args[0].args[1] in ('conj', 'conjugate') and not x.args[1] and not x.args[2] and x.args[0].args[0].op != 'ref':
+                            return x.args[0].args[0], True
+                        return x, False
+                    (u_, cu), (v_, cv) = unconj(inner.args[1][1]), unconj(inner.args[1][2])
+                    if u_ is v_ and cu != cv:
+                        nrm = self.mk('call', (self.mk('ref', (Lib('numpy.linalg.norm'),), e), (u_,), (('axis', const(-1, e, self.fn)),)), e)
+                        self.event('call', nrm, e)
+                        return self._sub(nrm, idx_, e) if idx_ is not None else nrm
         if lib == 'numpy.expand_dims' and plain and len(args) + len(kws) == 2:
             # np.expand_dims(reduce(x, axis=a), a) is reduce(x, axis=a, keepdims=True)
             x = args[0] if args else dict(kws).get('a')
@@ -3436,7 +3662,7 @@ class FuncGraph:
             return self._libcall('numpy.einsum', (const('...d,...dD->...D', e, self.fn), m.args[0], v), e)
         if not re.fullmatch(r'(E|:+)0', self._index_kinds(idx)):
             return None
-        if v.op != 'sub' or not re.fullmatch(r'(E|:+)N', self._index_kinds(v.args[1])):
+        if v.op != 'sub' or not re.fullmatch(r'(E|:+)N|E:N', self._index_kinds(v.args[1])):          # v[..., None] / v[:, None] / v[..., :, None]
             return None
         return self._libcall('numpy.einsum', (const('...dD,...D->...d', e, self.fn), m, v.args[0]), e)
 
